@@ -258,6 +258,9 @@ def rand_line(rng, sc):
         tail = bytes(rng.choice(b"xyz?=1") for _ in range(rng.randint(1, 3)))
     if rng.random() < 0.04:
         tail += bytes(rng.choice(b"abcdefgh") for _ in range(rng.randint(sc.buf // 2, 3 * sc.buf)))
+    if suffix == b"=" and rng.random() < 0.06:
+        # arguments that begin with a NUL byte and contain the characters the parser gives a meaning to
+        tail = b"\x00" + bytes(rng.choice(b"?=a1,\x00\"") for _ in range(rng.randint(1, 5)))
     prefix = rand_case(rng, b"AT")
     line = prefix + name + suffix + tail
     return sprinkle_cr(rng, line) + b"\n"
